@@ -415,6 +415,14 @@ def boundary_cases():
     out.append((IT('j', (0, 2, 1), REP(2, IT('i', (0, 3, 1), H(1, a=('0', {'i': '1/4', 'j': '1'}))))), ['a']))   # F4
     out.append((IT('j', (0, 2, 1), SEQ(H(1, a=('0', {'j': '1/2'}), b='1/2'),
                                        IT('i', (0, 2, 1), H(1, a=('0', {'j': '1/2'}), b=('0', {'i': '1/2'}))))), ['a', 'b']))  # F5
+    # one register shared by holds at different depths (key ignores trailing zero factors), former AssertionError
+    a_j = ('0', {'j': '1/2'})
+    out.append((IT('j', (0, 3, 1), SEQ(IT('i', (0, 3, 1), H(1, a=a_j, b=('0', {'i': '1/2'}))), H(1, a=a_j, b='1/2'))), ['a', 'b']))
+    out.append((IT('j', (1, 7, 2), SEQ(H(1, a=a_j, b='1/2'),
+                                       IT('i', (0, 2, 1), SEQ(H(1, a=a_j, b=('0', {'i': '1/2'})),
+                                                              IT('k', (0, 2, 1), H(1, a=('0', {'j': '1/2', 'k': '1/4'}), b=('0', {'i': '1/2'}))))),
+                                       H(1, a=('1/4', {'j': '1/2'}), b='1/4'))), ['b', 'a']))
+    out.append((IT('j', (0, 2, 1), REP(2, SEQ(H(1, a=a_j, b='1/2'), IT('i', (0, 2, 1), H(1, a=a_j, b=('0', {'i': '1/2'})))))), ['a', 'b']))
     out.append((SEQ(H(1, a='3/2'), REP(3, SEQ(H(1, a='3/2'), H(1, a='5/2')))), ['a']))    # F3 plain
     out.append((IT('j', (0, 2, 1), SEQ(H(1, a=('0', {'j': '1/2'})), REP(2, SEQ(H(1, a=('0', {'j': '1/2'})), H(1, a='5/2'))))), ['a']))
     out.append((IT('i', (5, 0, -2), H(1, a=a_i('1', '1/4'))), ['a']))
@@ -772,35 +780,9 @@ def classify(case, obs):
         return None
     if case['kind'] == 'scale' and any(h[0] is None for h in case['hw'][:-1]):
         return 'unused-outputs-collapse'
-    if obs.get('err') == 'EAssert' and _same_key_two_depths(tree):
-        return 'dep-key-shared-across-depths'
     if _has(tree, lambda x: x['t'] == 'remap' and _has(x['body'], lambda y: y['t'] == 'rep' and y['n'] > 0)):
         return 'index-rebinding-under-repetition'
     return None
-
-
-def _same_key_two_depths(tree):
-    seen = {}
-
-    def go(t, idxs, subst_names):
-        if t['t'] == 'hold':
-            for ch, v in t['v'].items():
-                if v['k'] != 'aff':
-                    continue
-                cs = [F(v['coefs'].get(n, 0)) for n in idxs]
-                while cs and cs[-1] == 0:
-                    cs.pop()
-                if cs:
-                    seen.setdefault((ch, len(cs)), set()).add(len(idxs))
-        elif t['t'] == 'seq':
-            for x in t['l']:
-                go(x, idxs, subst_names)
-        elif t['t'] == 'iter':
-            go(t['body'], idxs + (t['idx'],), subst_names)
-        else:
-            go(t['body'], idxs, subst_names)
-    go(tree, (), ())
-    return any(len(d) > 1 for d in seen.values())
 
 
 def _py_spec_ok(case, obs):
